@@ -142,9 +142,9 @@ def to_dict(mrs, properties=True, lnk=True):
         if lnk:
             if ep.lnk:
                 d['lnk'] = {'from': ep.cfrom, 'to': ep.cto}
-            if ep.surface:
+            if ep.surface is not None:
                 d['surface'] = ep.surface
-            if ep.base:
+            if ep.base is not None:
                 d['base'] = ep.base
         return d
 
